@@ -69,6 +69,7 @@ type GhostVar struct {
 	Name string
 	Pkg  string
 	Key  *TypeExpr // nil: global ghost; else: per-object ghost (map from ref)
+	Key2 *TypeExpr // second key (two-dimensional ghost), or nil
 	T    *TypeExpr
 }
 
@@ -530,7 +531,7 @@ func parseTypeString(s string) (*TypeExpr, error) {
 	return te, err
 }
 
-var ghostHdr = regexp.MustCompile(`^var\s+(\w+)\s*(?:\(\s*\w+\s+([^)]+)\))?\s*(.+)$`)
+var ghostHdr = regexp.MustCompile(`^var\s+(\w+)\s*(?:\(([^)]*)\))?\s*(.+)$`)
 
 func (p *Program) parseGhost(pkg, rest string) error {
 	m := ghostHdr.FindStringSubmatch(rest)
@@ -538,12 +539,18 @@ func (p *Program) parseGhost(pkg, rest string) error {
 		return fmt.Errorf("bad ghost declaration %q", rest)
 	}
 	g := &GhostVar{Name: m[1], Pkg: pkg}
-	if m[2] != "" {
-		te, err := parseTypeString(strings.TrimSpace(m[2]))
+	if strings.TrimSpace(m[2]) != "" {
+		ps, err := parseParams(m[2])
 		if err != nil {
 			return err
 		}
-		g.Key = te
+		if len(ps) < 1 || len(ps) > 2 {
+			return fmt.Errorf("ghost variable %s: one or two keys supported", g.Name)
+		}
+		g.Key = ps[0].T
+		if len(ps) == 2 {
+			g.Key2 = ps[1].T
+		}
 	}
 	te, err := parseTypeString(strings.TrimSpace(m[3]))
 	if err != nil {
